@@ -124,6 +124,32 @@ def memberTs? (pfx ext name : List Nat) : Option (List Nat) :=
 
 def isMember (pfx ext name : List Nat) : Bool := (memberTs? pfx ext name).isSome
 
+/-! ### The template path (`dir_prefix_ext`, lib.rs:1078-1110) -/
+
+/-- Split at the last occurrence of `c`: `(before, after)`. -/
+def splitLast (c : Nat) : List Nat → Option (List Nat × List Nat)
+  | [] => none
+  | x :: xs =>
+    match splitLast c xs with
+    | some (b, a) => some (x :: b, a)
+    | none => if x = c then some ([], xs) else none
+
+def slash : Nat := 47
+
+/-- `dir_prefix_ext` on simple Unix paths (segments separated by single slashes, no `.`/`..` segments inside, no
+    trailing slash): directory = `Path::parent`, prefix = `file_stem`, extension = `extension` or `log`.
+    `none` = the error "paths must include a file name". -/
+def dirPrefixExt (path : List Nat) : Option (List Nat × List Nat × List Nat) :=
+  let (dir, name) :=
+    match splitLast slash path with
+    | none => ([], path)
+    | some (d, n) => (if d = [] then [slash] else d, n)
+  if name = [] ∨ name = [dot] ∨ name = [dot, dot] then none
+  else
+    match splitLast dot name with
+    | none => some (dir, name, [108, 111, 103])
+    | some (before, after) => if before = [] then some (dir, name, [108, 111, 103]) else some (dir, before, after)
+
 /-! ### Lexicographic order on names (`str::cmp`) and the descending sort -/
 
 def lexLt : List Nat → List Nat → Bool
